@@ -167,16 +167,41 @@ def ofm_zp(F):
     return 0 if F.ofm.bits == 32 else F.ofm.zero_point
 
 
+MODEL_WIDE_LUT = False  # 32-bit-result and 16-bit-index tables (softmax lowering): modelled but not yet calibrated against the reference kernels
+
+
 def lut_apply(F, acc, vals, mem, acc_name):
     if F.lut_index is None:
         if F.act_fn in (3, 4):
             raise Unmodelled("hardware tanh/sigmoid activation")
         return vals
-    if not (F.ifm.bits == 8 and F.ofm.bits == 8):
-        raise Unmodelled("16/32-bit table lookup")
     a = isa.ACCEL[acc_name]
     total, end_with_lut = shram.limits(acc_name, True)
     base = (end_with_lut if a["banks"] <= 16 else total) * isa.SHRAM_BANK_SIZE + 256 * F.lut_index
+    if not MODEL_WIDE_LUT and not (F.ifm.bits == 8 and F.ofm.bits == 8):
+        raise Unmodelled("%d/%d-bit table lookup" % (F.ifm.bits, F.ofm.bits))
+    if F.ofm.bits == 32 and F.act_clip == 3:
+        # 8-bit index (the clip field forces the int8 range), 256 entries of 32 bits; the entry is the 32-bit result (softmax exp table)
+        t = mem.shram[base : base + 1024].view("<u4").astype(np.int64)
+        t = np.where(t >= (1 << 31), t - (1 << 32), t)
+        return t[(vals + 128) & 0xFF]
+    if F.ofm.bits in (16, 32) and F.ifm.bits == 16 and F.act_clip != 3:
+        # 16-bit index: 512 entries of (slope << 16) + base; index = upper 9 bits, linear interpolation over the lower 7 bits with rounding
+        # (the TFLite int16 table kernel: base + ((slope * offset + 64) >> 7)); calibration note in DESIGN section 8
+        t = mem.shram[base : base + 2048].view("<u4").astype(np.int64)
+        t = np.where(t >= (1 << 31), t - (1 << 32), t)
+        lo16 = t & 0xFFFF
+        b16 = np.where(lo16 >= 0x8000, lo16 - 0x10000, lo16)
+        slope = (t - b16) >> 16
+        v = np.clip(vals, -32768, 32767)
+        idx = (v + 32768) >> 7
+        off = v & 0x7F
+        out = b16[idx] + ((slope[idx] * off + 64) >> 7)
+        if F.ofm.bits == 16:
+            out = np.clip(out, -32768, 32767)
+        return out
+    if not (F.ifm.bits == 8 and F.ofm.bits == 8):
+        raise Unmodelled("%d/%d-bit table lookup" % (F.ifm.bits, F.ofm.bits))
     table = mem.shram[base : base + 256]
     if F.ofm.signed:
         idx = (vals + 128) & 0xFF
